@@ -55,6 +55,7 @@ const (
 	zzKFormat
 	zzKMap
 	zzKEnumStrNull
+	zzKNull
 )
 
 func zzTypeList(name string, nullable bool) schemas.TypeList {
@@ -157,7 +158,7 @@ func zzLimit() int {
 // zzGen draws a schema of one of the kinds in mask at nesting depth <= depth.
 func zzGen(mask int, depth int, allowNullable bool) (*schemas.Type, *zzSpec) {
 	var kinds []int
-	for k := 1; k <= zzKEnumStrNull; k <<= 1 {
+	for k := 1; k <= zzKNull; k <<= 1 {
 		if mask&k != 0 {
 			if (k == zzKArray || k == zzKObject) && depth <= 0 {
 				continue
@@ -169,7 +170,7 @@ func zzGen(mask int, depth int, allowNullable bool) (*schemas.Type, *zzSpec) {
 	t := &schemas.Type{}
 	s := &zzSpec{}
 	nullable := false
-	if allowNullable && zzvrt.Param("NULLABLE", 1) == 1 && k != zzKEnumString && k != zzKEnumInt && k != zzKEnumMixed && k != zzKAny && k != zzKEnumStrNull {
+	if allowNullable && zzvrt.Param("NULLABLE", 1) == 1 && k != zzKNull && k != zzKEnumString && k != zzKEnumInt && k != zzKEnumMixed && k != zzKAny && k != zzKEnumStrNull {
 		nullable = zzvrt.Bool()
 	}
 	s.nullable = nullable
@@ -186,6 +187,11 @@ func zzGen(mask int, depth int, allowNullable bool) (*schemas.Type, *zzSpec) {
 			}
 			if zzvrt.Bool() {
 				s.pattern = zzPattern
+				if zzvrt.Param("PATTEXT", 0) == 1 && zzvrt.Bool() {
+					// a pattern whose text matters to the code emitter (format verbs, a backquote
+					// cannot occur in a raw string literal)
+					s.pattern = "^[0-9]{1,3}%d%%$"
+				}
 			}
 		} else {
 			switch zzvrt.Choice(zzvrt.Param("STRSHAPES", 8)) {
@@ -276,6 +282,10 @@ func zzGen(mask int, depth int, allowNullable bool) (*schemas.Type, *zzSpec) {
 		t.Enum = []interface{}{"a", 1.5, true, nil}
 	case zzKAny:
 		s.kind = "any"
+	case zzKNull:
+		// {"type": "null"}: only null is a value of this position
+		s.kind = "null"
+		t.Type = schemas.TypeList{"null"}
 	case zzKEnumStrNull:
 		// strings plus null, untyped or with the two-entry type list
 		s.kind = "enum-string-null"
